@@ -243,9 +243,30 @@ DirForms == {"dir"}
 None == [form |-> "none"]
 AllFrags == ExprFrags \cup StmtFrags \cup CtlFrags \cup DeclFrags \cup DirFrags \cup MinvFrags
 
+(* "drop": the fragment `of` with the last occurrence of token tok removed from its C spelling.  Closers(f) lists the  *)
+(* tokens of f's spelling whose removal can never leave a program derivable from the grammar: closing brackets (the     *)
+(* translation unit becomes unbalanced), the colon of a label / conditional / bit-field / association, and the           *)
+(* semicolon that ends a jump statement or a declaration (the next token of every base is `}`, a keyword or a call).      *)
+FDrop(f, t) == [form |-> "drop", of |-> f, tok |-> t]
+Closers(f) ==
+  CASE f.form \in {"bin", "asg", "un", "call", "cast", "sizeoft", "builtin", "ctl", "alignas", "sa", "param", "fdecl"} -> {")"}
+    [] f.form \in {"cond", "generic"} -> {")", ":"}
+    [] f.form \in {"idx", "arr"} -> {"]"}
+    [] f.form = "stmt" -> (CASE f.kind \in {"case", "default"} -> {":"}   \* not ";": a label before `}` is valid C23 (N2508), which cproc implements
+                            [] f.kind \in {"goto", "break", "continue", "return"} -> {";"}
+                            [] OTHER -> {})
+    [] f.form = "bf" -> {"}", ":"}
+    [] f.form \in {"init", "enum"} -> {"}"}
+    [] f.form = "struct" -> (IF Len(f.mem) > 0 THEN {"}"} ELSE {})
+    [] f.form = "tag" -> (IF f.body THEN {"}"} ELSE {})
+    [] f.form = "obj" -> {";"}
+    [] OTHER -> {}
+
 (* feasible positions of a form *)
+RECURSIVE FeasiblePos(_)
 FeasiblePos(f) ==
-  CASE f.form \in ExprForms -> Positions
+  CASE f.form = "drop" -> FeasiblePos(f.of)
+    [] f.form \in ExprForms -> Positions
     [] f.form = "minv"      -> {"file", "block", "nested"}
     [] f.form \in StmtForms -> {"block", "nested", "macro"}
     [] f.form \in DeclForms -> Positions
